@@ -103,9 +103,13 @@ func (t *TCCServiceProxy) registeBranch(ctx context.Context, params interface{})
 		tccContext.ActionContext[k] = v
 	}
 
-	applicationData, _ := json.Marshal(map[string]interface{}{
+	applicationData, err := json.Marshal(map[string]interface{}{
 		constant.ActionContext: actionContext,
 	})
+	if err != nil {
+		log.Errorf("marshal tcc action context error %s ", err.Error())
+		return err
+	}
 	branchId, err := rm.GetRMRemotingInstance().BranchRegister(rm.BranchRegisterParam{
 		BranchType:      branch.BranchTypeTCC,
 		ResourceId:      t.GetActionName(),
